@@ -1,2 +1,88 @@
-(* C14 (English half) - lemmas; being written *)
-Require Import GenEn.
+(* C14 (English half) - rule application is total, the seen-rule gate only removes, 'nb' marks do not matter,
+   the unary rules return exactly the configured targets.  Over the GENERATED GenEn.v. *)
+From Coq Require Import List NArith Bool Lia.
+Import ListNotations.
+Require Import Cat CatFacts Unify GramPrims GenTables GenEn EnSpec EnLemmas EnSound.
+Open Scope N_scope.
+
+Notation kc := (clear_features key_clear).
+Notation sc := (clear_features seen_clear).
+
+(* ---------- binary rules ---------- *)
+Theorem en_total x y seen : wf puncts x -> wf puncts y -> one_system x y -> exists rs, apply_binary_rules x y seen = Ok_ rs.
+Proof.
+  intros Wx Wy [Ux Uy]. unfold apply_binary_rules, apply_binary.
+  assert (H : exists rs, collect combinators (kc x) (kc y) = Ok_ rs)
+    by (apply collect_ok; try (now apply clear_wf); now apply clear_unary).
+  destruct seen as [s|]; [|exact H]. destruct (seen_mem _ s); [exact H | now eexists].
+Qed.
+
+Theorem en_seen_filter x y S :
+  apply_binary_rules x y (Some S) = if seen_mem (sc x, sc y) S then apply_binary_rules x y None else Ok_ [].
+Proof. reflexivity. Qed.
+
+Theorem en_nb_invariant x y : apply_binary_rules x y None = apply_binary_rules (kc x) (kc y) None.
+Proof. unfold apply_binary_rules, apply_binary. now rewrite !clear_idem. Qed.
+
+(* the filter only removes: with a seen-rule set the result is the unrestricted result or nothing *)
+Theorem en_filter_only_removes x y S rs r : apply_binary_rules x y (Some S) = Ok_ rs -> In r rs ->
+  exists rs', apply_binary_rules x y None = Ok_ rs' /\ rs' = rs.
+Proof.
+  rewrite en_seen_filter. destruct (seen_mem _ S); intros H Hin.
+  - now exists rs.
+  - inversion H; subst. contradiction.
+Qed.
+
+(* ---------- unary rules ---------- *)
+Definition l_tr : text := [116;114].
+Definition l_lex : text := [108;101;120].
+Definition y_un : text := [60;117;110;62].
+Definition n_PP : text := [80;80].
+(* 'tr' exactly when x is an atomic NP or PP and the target is type-raised *)
+Definition tr_case (x target : cat) : Prop := (exists f, x = Atom n_NP f \/ x = Atom n_PP f) /\ type_raised target.
+Definition unary_result (x : cat) (r : cres) : Prop :=
+  ((tr_case x (rcat r) /\ op_string r = l_tr) \/ (~ tr_case x (rcat r) /\ op_string r = l_lex)) /\
+  op_symbol r = y_un /\ head_is_left r = true.
+
+Definition tr_caseb (x target : cat) : bool :=
+  match x with Atom b _ => text_in b [n_NP; n_PP] && type_raisedb target | Fun _ _ _ => false end.
+Lemma tr_caseb_ok x t : tr_caseb x t = true <-> tr_case x t.
+Proof.
+  unfold tr_case. split.
+  - destruct x as [b f|]; cbn [tr_caseb]; [|discriminate]. intros H. apply andb_true_iff in H as [H1 H2].
+    apply type_raisedb_ok in H2. split; [|exact H2]. apply text_in_In in H1. exists f.
+    destruct H1 as [<-|[<-|[]]]; [now left | now right].
+  - intros [[f [->| ->]] H]; cbn [tr_caseb]; apply type_raisedb_ok in H; rewrite H; reflexivity.
+Qed.
+
+Lemma unary_body_char x t :
+  unary_body x t = Ok_ {| rcat := t; op_string := if tr_caseb x t then l_tr else l_lex; op_symbol := y_un; head_is_left := true |}.
+Proof.
+  unfold unary_body. cbn [bind]. destruct x as [b f | l s r]; cbn [bind is_fun negb base_of tr_caseb].
+  - change [[78; 80]; [80; 80]] with [n_NP; n_PP]. destruct (text_in b [n_NP; n_PP]); cbn [bind andb].
+    + rewrite is_type_raised_char. cbn [bind]. now destruct (type_raisedb t).
+    + reflexivity.
+  - reflexivity.
+Qed.
+
+Lemma mapM_unary x ts :
+  mapM (unary_body x) ts = Ok_ (map (fun t => {| rcat := t; op_string := if tr_caseb x t then l_tr else l_lex; op_symbol := y_un; head_is_left := true |}) ts).
+Proof. induction ts as [|t ts IH]; cbn [mapM map]; [reflexivity|]. rewrite unary_body_char. cbn [bind]. rewrite IH. reflexivity. Qed.
+
+Definition targets (x : cat) (t : unary_table) : list cat := match table_get x t with Some l => l | None => [] end.
+
+Theorem en_unary_exact x t :
+  exists rs, apply_unary_rules x t = Ok_ rs /\ map rcat rs = targets x t /\ Forall (unary_result x) rs.
+Proof.
+  unfold apply_unary_rules, apply_unary, targets. destruct (table_get x t) as [ts|].
+  - rewrite mapM_unary. eexists. split; [reflexivity|]. split.
+    + rewrite map_map. cbn [rcat]. apply map_id.
+    + apply Forall_forall. intros r Hr. apply in_map_iff in Hr as (c & <- & _). unfold unary_result. cbn [rcat op_string op_symbol head_is_left].
+      split; [|split; reflexivity]. destruct (tr_caseb x c) eqn:E.
+      * left. split; [now apply tr_caseb_ok | reflexivity].
+      * right. split; [|reflexivity]. intros H. apply tr_caseb_ok in H. congruence.
+  - exists []. split; [reflexivity|]. split; [reflexivity | constructor].
+Qed.
+
+Theorem en_unary_total x t : exists rs, apply_unary_rules x t = Ok_ rs.
+Proof. destruct (en_unary_exact x t) as (rs & H & _). now exists rs. Qed.
